@@ -1,12 +1,22 @@
 //! C05 - clock (`C`) and don't-care (`X`) inputs expand into the documented row sequences.
+//!
+//! As built (DESIGN 8.4b): self-consistent oracle. Every row statement carries a tag; from the
+//! generating program the harness knows, per source row, which input-bound columns hold `X`
+//! (k of them), whether it has `C` columns, and which expected columns hold a literal `X`/`Z`.
+//! One evaluation of the row must then yield exactly 2^k groups (assignment a = 0..2^k-1, bit j
+//! of a = the j-th X column from the left), each one checked item or a 0-1-0 clock triple of
+//! which only the third is checked; all other inputs and all expected values are the same in
+//! every item of the evaluation. What the values *are* is not predicted, so nothing outside the
+//! expansion can disturb this check.
 
 use crate::choice::Ch;
 use crate::device::*;
 use crate::engine::*;
 use crate::gen::*;
+use crate::model::*;
+use crate::probe::*;
 use crate::props::common::*;
 use crate::real::*;
-use crate::ri;
 
 pub struct C05;
 
@@ -38,7 +48,7 @@ impl Property for C05 {
         "C05"
     }
     fn rule(&self) -> &'static str {
-        "profile `expansion`: programs whose rows hold 0-3 `C` and 0-5 `X` in input-bound columns at any position, X/Z in expected columns, literals, (expr) and bits() in between, at loop depth 0-3, multi-bit and bidirectional inputs, permuted headers, both driver types. Oracle: reference expansion (2^k assignments, leftmost X fastest, 0 before 1; per assignment one checked write or a 0-1-0 clock triple with only the third checked; expected values of the source row; expected X/Z never expanded) against the row stream AND the driver call log (which method, which vector). Non-trivial: a row with >= 2 X, or >= 2 C, or both C and X was executed; distinct by source + signals + driver."
+        "profile `expansion`: programs whose rows hold 0-3 `C` and 0-5 `X` in input-bound columns at any position, X/Z in expected columns, literals, (expr) and bits() in between, at loop depth 0-3, multi-bit and bidirectional inputs, permuted headers, both driver types; every row statement carries a tag in a dedicated input column. Oracle (self-consistent): the items are cut into runs of equal tag; each run must consist of whole evaluations of g = 2^k x (3 if C else 1) items; within an evaluation item number p belongs to assignment a = p / phases, phase p % phases: the j-th X column from the left holds bit j of a, every C column holds 0,1,0 over the phases, only the last phase is checked (outputs non-empty) and is sent with the output-reading method, the other phases with the write-only method (as seen by an overriding driver), every other input and every expected value is the same in all items of the evaluation, expected columns holding a literal X / Z report X / Z, and the driver received exactly row.inputs. Non-trivial: an evaluation with >= 2 X, or >= 2 C, or both C and X was checked; distinct by source + signals + driver."
     }
     fn cases(&self, tier: Tier) -> u64 {
         match tier {
@@ -47,125 +57,195 @@ impl Property for C05 {
         }
     }
     fn required_classes(&self) -> Vec<&'static str> {
-        vec!["C+X-row", "clock-triple", "x-expansion", "row>=2X", "row>=2C", "overriding-driver", "defaulting-driver", "expansion-in-loop"]
+        vec!["C+X-row", "clock-triple", "x-expansion", "row>=2X", "row>=2C", "overriding-driver", "defaulting-driver", "expansion-in-loop", "literal-expected-X", "literal-expected-Z", "repeat-expansion"]
     }
     fn run(&self, s: &Streams) -> CaseOut {
         let mut out = CaseOut::new();
         let cfg = expansion_cfg();
-        let built = gen_case(&mut Ch::new(&s[0]), &cfg);
+        let mut built = gen_case(&mut Ch::new(&s[0]), &cfg);
+        let rows = instrument(&mut built, &mut Ch::new(&s[1]), 0, ProbePref::Vars, &[]);
         let text = built_text(&built);
         let spec = gen_spec(
             &mut Ch::new(&s[2]),
             &built.sigs,
-            &SpecCfg {
-                palette: Palette::Small,
-                zx: 0,
-                free_layout: false,
-                must_supply: built.must_supply(),
-                both_driver_types: true,
-            },
+            &SpecCfg { palette: Palette::Small, zx: 0, free_layout: false, must_supply: built.must_supply(), both_driver_types: true },
         );
         render_case(&mut out, &text, &built.sigs, Some(&spec));
         let f = feats(&built);
         feat_classes(&mut out, &f);
         out.class(if spec.override_write { "overriding-driver" } else { "defaulting-driver" });
-        let t = ri::run(&built.prog, &built.sigs, &spec, &ri::RiOpts::default());
-        fact_classes(&mut out, &t);
-        if matches!(t.end, ri::RiEnd::StepCap) && t.items.is_empty() {
-            out.discard("step-cap-before-first-row");
-            return out;
-        }
-        if matches!(t.end, ri::RiEnd::Error) {
-            out.discard("hazard-in-total-profile");
-            return out;
-        }
-        // shape of executed source rows
-        let mut two_x = false;
-        let mut two_c = false;
-        let mut both = false;
-        let mut in_loop = false;
-        {
-            // group consecutive items by (row id, restart of expansion index)
-            let mut i = 0;
-            while i < t.items.len() {
-                let ri::RiItem::Row(r0) = &t.items[i] else { break };
-                let mut j = i + 1;
-                while j < t.items.len() {
-                    match &t.items[j] {
-                        ri::RiItem::Row(r) if r.row_id == r0.row_id && r.expansion_index > 0 && r.expansion_index == j - i => j += 1,
-                        _ => break,
-                    }
-                }
-                let n = j - i;
-                let unchecked = t.items[i..j].iter().filter(|x| matches!(x, ri::RiItem::Row(r) if !r.checked)).count();
-                let has_c = unchecked > 0;
-                let groups = if has_c { n / 3 } else { n };
-                if groups >= 4 {
-                    two_x = true;
-                }
-                if has_c && groups >= 2 {
-                    both = true;
-                }
-                if (has_c || groups >= 2) && r0.depth > 0 {
-                    in_loop = true;
-                }
-                i = j;
-            }
-            // >= 2 C columns: from the model
-            b_two_c(&built, &mut two_c);
-        }
-        out.class_if(two_x, "row>=2X");
-        out.class_if(two_c, "row>=2C");
-        out.class_if(in_loop, "expansion-in-loop");
-        out.nontrivial = two_x || (two_c && t.facts.clock_triples > 0) || both;
-
         let Some(tc) = load_wellformed(&mut out, "c05", &text, &built.sigs) else {
             return out;
         };
-        let real = run_real(&tc, &built.sigs, &spec, &RunOpts { max_next: next_budget(&t), fuel: fuel_for(t.facts.steps), ..Default::default() });
-        if let Some((k, m)) = trace_diff(&t, &real, Projection::INPUTS_EXPECTED) {
-            let key = if k.starts_with("panic:") { k } else { format!("c05:{k}") };
-            out.fail(key, m);
+        let cap = 300;
+        let real = run_real(&tc, &built.sigs, &spec, &RunOpts { max_next: cap, ..Default::default() });
+        if let Some(c) = &real.ctor {
+            match c {
+                RealItem::Panic(p) => out.fail(p.key(), format!("constructor panicked: {p}")),
+                _ => out.discard("constructor-failed"),
+            }
             return out;
         }
-        // the call log: constructor + one call per item, right method, right vector
-        for (i, item) in t.items.iter().enumerate() {
-            let ri::RiItem::Row(r) = item else { continue };
-            let Some(call) = real.log.get(i + 1) else {
-                out.fail("c05:call-missing", format!("no driver call for item {i}"));
-                return out;
-            };
-            let want_read = r.checked || !spec.override_write;
-            if call.read != want_read {
-                out.fail(
-                    "c05:wrong-call-kind",
-                    format!(
-                        "item {i} ({}): driver saw {} call",
-                        fmt_ri_row(r),
-                        if call.read { "an output-reading" } else { "a write-only" }
-                    ),
-                );
-                return out;
-            }
-            let sent: Vec<(String, crate::model::InVal)> = call.inputs.iter().map(|(n, v, _)| (n.clone(), *v)).collect();
-            if sent != r.inputs {
-                out.fail(
-                    "c05:wrong-vector-sent",
-                    format!("item {i}: driver received [{}], should be [{}]", fmt_inputs(&sent), fmt_inputs(&r.inputs)),
-                );
-                return out;
+        // items as rows; anything else ends the part that can be looked at
+        let mut items: Vec<&RealRow> = vec![];
+        let mut clean_end = real.ended;
+        for it in &real.items {
+            match it {
+                RealItem::Row(r) => items.push(r),
+                RealItem::Panic(p) => {
+                    out.fail(p.key(), format!("next() panicked: {p}"));
+                    return out;
+                }
+                _ => {
+                    clean_end = false;
+                    break;
+                }
             }
         }
+        let tag_of = |r: &RealRow| -> Option<i64> {
+            match r.inputs.iter().find(|e| e.0 == "TAG").map(|e| e.1) {
+                Some(InVal::Val(t)) => Some(t),
+                _ => None,
+            }
+        };
+        let get = |r: &RealRow, name: &str| r.inputs.iter().find(|e| e.0 == name).map(|e| e.1);
+        let mut nontrivial = false;
+        let mut i = 0usize;
+        while i < items.len() {
+            let Some(tag) = tag_of(items[i]) else { break };
+            let Some(info) = rows.get(&((tag - 1) as usize)) else { break };
+            let g = info.group.max(1);
+            let phases = if info.cs.is_empty() { 1 } else { 3 };
+            // one evaluation = the next g items
+            if i + g > items.len() {
+                // cut by the cap on next() calls (or by an error): look at what is there, but do
+                // not demand the rest - unless the run ended normally
+                if clean_end {
+                    out.fail(
+                        "c05:incomplete-expansion",
+                        format!("source row #{} expands to {g} items per evaluation; the run ended after {} of them", tag - 1, items.len() - i),
+                    );
+                    return out;
+                }
+            }
+            let n_here = g.min(items.len() - i);
+            let first = items[i];
+            let eval_classes = (info.xs.len() >= 2, info.cs.len() >= 2, !info.xs.is_empty() && !info.cs.is_empty());
+            for p in 0..n_here {
+                let it = items[i + p];
+                let what = format!("item {} = position {p} of an evaluation of source row #{} ({} X, {} C)", i + p, tag - 1, info.xs.len(), info.cs.len());
+                if tag_of(it) != Some(tag) {
+                    out.fail(
+                        "c05:expansion-too-short",
+                        format!("{what}: the evaluation must yield {g} items, but a different source row (tag {:?}) follows after {p}", tag_of(it)),
+                    );
+                    return out;
+                }
+                let a = p / phases;
+                let ph = p % phases;
+                for (j, x) in info.xs.iter().enumerate() {
+                    let want = ((a >> j) & 1) as i64;
+                    if get(it, x) != Some(InVal::Val(want)) {
+                        out.fail(
+                            "c05:wrong-x-assignment",
+                            format!("{what}: X column {x} holds {:?}, must hold {want} (assignment {a}: leftmost X column varies fastest, 0 before 1)", get(it, x)),
+                        );
+                        return out;
+                    }
+                }
+                let clk = [0i64, 1, 0][if phases == 3 { ph } else { 0 }];
+                for c in &info.cs {
+                    if get(it, c) != Some(InVal::Val(clk)) {
+                        out.fail(
+                            "c05:wrong-clock-phase",
+                            format!("{what}: clock column {c} holds {:?} in phase {ph}, must hold {clk} (0, 1, 0)", get(it, c)),
+                        );
+                        return out;
+                    }
+                }
+                let must_be_checked = ph == phases - 1;
+                if must_be_checked == it.outputs.is_empty() {
+                    out.fail(
+                        "c05:wrong-phase-checked",
+                        format!("{what}: phase {ph} of {phases} has {} output entries; only the last phase is read and compared", it.outputs.len()),
+                    );
+                    return out;
+                }
+                // every other input is held
+                for (n, v, _) in &it.inputs {
+                    if info.xs.contains(n) || info.cs.contains(n) {
+                        continue;
+                    }
+                    if get(first, n) != Some(*v) {
+                        out.fail(
+                            "c05:input-not-held",
+                            format!("{what}: input {n} = {v}, but {:?} in the first item of the same evaluation", get(first, n)),
+                        );
+                        return out;
+                    }
+                }
+                // expected values: the row's, each time
+                if must_be_checked {
+                    if let Some(f0) = items[i..i + n_here].iter().find(|r| !r.outputs.is_empty()) {
+                        for (o, o0) in it.outputs.iter().zip(&f0.outputs) {
+                            if o.name != o0.name || o.expected != o0.expected {
+                                out.fail(
+                                    "c05:expected-differs-within-evaluation",
+                                    format!("{what}: expected {}={} but {}={} in another checked item of the same evaluation", o.name, o.expected, o0.name, o0.expected),
+                                );
+                                return out;
+                            }
+                        }
+                    }
+                    for (name, want) in &info.literal_expected {
+                        out.class(if *want == ExpVal::X { "literal-expected-X" } else { "literal-expected-Z" });
+                        if let Some(o) = it.outputs.iter().find(|o| o.name == *name) {
+                            if o.expected != *want {
+                                out.fail(
+                                    "c05:expected-xz-not-passed-through",
+                                    format!("{what}: the expected column of {name} holds a literal {want}, the row reports {}", o.expected),
+                                );
+                                return out;
+                            }
+                        }
+                    }
+                }
+                // the driver call made for this item
+                let idx = i + p;
+                let before = real.log_len_before[idx];
+                let after = real.log_len_before[idx + 1];
+                if after != before + 1 {
+                    out.fail("c05:calls-per-item", format!("{what}: {} driver calls were made for it, a row is executed as exactly one device write", after - before));
+                    return out;
+                }
+                let call = &real.log[before];
+                let want_read = must_be_checked || !spec.override_write;
+                if call.read != want_read {
+                    out.fail(
+                        "c05:wrong-call-kind",
+                        format!("{what}: the driver saw {} call; outputs are read only after the last write of a clock triple", if call.read { "an output-reading" } else { "a write-only" }),
+                    );
+                    return out;
+                }
+                if call.inputs != it.inputs {
+                    out.fail("c05:wrong-vector-sent", format!("{what}: the driver received {:?}, the row says {:?}", call.inputs, it.inputs));
+                    return out;
+                }
+            }
+            if n_here == g {
+                out.class_if(phases == 3, "clock-triple");
+                out.class_if(!info.xs.is_empty(), "x-expansion");
+                out.class_if(eval_classes.0, "row>=2X");
+                out.class_if(eval_classes.1, "row>=2C");
+                out.class_if(info.depth > 0 && g > 1, "expansion-in-loop");
+                out.class_if(info.is_repeat && g > 1, "repeat-expansion");
+                if eval_classes.0 || eval_classes.1 || eval_classes.2 {
+                    nontrivial = true;
+                }
+            }
+            i += n_here;
+        }
+        out.nontrivial = nontrivial;
         out
     }
-}
-
-fn b_two_c(b: &Built, two_c: &mut bool) {
-    b.prog.visit_stmts(&mut |s, _| {
-        if let crate::model::Stmt::Row(_, es) | crate::model::Stmt::Repeat(_, _, es) = s {
-            if es.iter().filter(|e| matches!(e, crate::model::Entry::C(_))).count() >= 2 {
-                *two_c = true;
-            }
-        }
-    });
 }
